@@ -60,6 +60,16 @@ CLAIMED["C06"] = dict(
          "The CLI clause of the property is not decided.",
 )
 
+CLAIMED["C07"] = dict(
+    text="Unbounded proof from the real AST that reconcile_lca returns a total mapping sending every object node to the LCA of the species of the "
+         "leaves below it (post-order loop invariant, lca through the C17 contract), and that this mapping is valid with only speciations and "
+         "duplications; L2 lemmas by induction over the object tree show the recursive lca_map is the greatest common ancestor of the leaf species. "
+         "'Minimum cost for all dup/loss >= 0, unique when loss > 0' is a theorem of the duplication-loss model and is NOT proved: it is covered "
+         "only by a bounded comparison with brute force (object trees <= 4/5 leaves), labelled bounded.",
+    note="Trusted: pyvc encoding; z3/cvc5; tree axioms; assumed ete3 post-order traversal contract (children before parents, every node once); "
+         "assumed LowestCommonAncestor.__call__ contract (C17).",
+)
+
 NOT_APPLICABLE = {
     "C14": "float layout geometry and a two-run (orientation) relation over 360 lines of dict-state code: no contract within reach decides it (DESIGN.md section 5)",
     "C09": "metamorphic / cross-process relations between runs; a functional contract speaks about one call (DESIGN.md section 5)",
